@@ -126,6 +126,12 @@ CLAIMS = {
         "text": "Decides ONLY a structural skeleton: the ten cells of a table row are the record's own values column by column (blanks only without a position); total_airplanes grows by exactly 1 per added aircraft and most_airplanes takes the tracked count under `most < count`; x = k*scale*(lon - centre lon), y = k*scale*(g(lat) - g(centre lat)) with k > 0 (east right, north up, centre at the origin); zoom/pan/reset write only view fields. NOT decided: what ratatui draws.",
         "note": TRUST,
     },
+    "C01": {
+        "engine": "ai", "technique": "static panic-site inventory + discharge of every site by path-sensitive abstract interpretation (intervals, bit provenance, exact linear forms) under decode-established field invariants; call-graph acyclicity and iterator-driven loops; allocation-size provenance",
+        "design_ref": "DESIGN.md §4 C01",
+        "text": "Decides: every panic site (overflow/bounds asserts, unwrap/expect, slice/str indexing, explicit panics) in library functions reachable from from_bytes/from_reader, Display, calculate, get_position, Airplanes::action and the views is visited by an abstract run and proved safe on every visit, or allow-listed with a reason (3 entries); the reachable call graph is acyclic and every loop is iterator-driven; allocation sizes seen during abstract decoding are small constants. Buffer lengths are explored as a finite set (longer buffers are equivalent because trailing bytes are never read). NOT decided: panics inside dependencies, OOM, stack depth.",
+        "note": TRUST,
+    },
     "C03": {
         "engine": "ai",
         "technique": "const-evaluated table comparison + GF(2) bit-provenance abstract interpretation of the checksum loop",
